@@ -74,6 +74,7 @@ LayoutDevs(e) ==
                           /\ k.drawn[3] = k.x + k.w - 1 /\ k.drawn[4] = k.y + k.h - 1 THEN {}
                        ELSE {Dev("C20.layout", "child_drawing_not_its_rectangle", <<i, k.x, k.y, k.w, k.h, k.drawn>>)})
                : i \in 1..Len(e.kids) }
+    \cup (IF e.ids = e.wids THEN {} ELSE {Dev("C20.layout", "widgets_not_in_order", <<e.ids, e.wids>>)})
     \cup (IF e.overdraw = 0 THEN {} ELSE {Dev("C20.layout", "cells_drawn_by_two_children", e.overdraw)})
 
 AllDevs(e) == IF e.ev \in {"VpNew", "VpOp"} THEN ProbeDevs(e) \cup ClampDevs(e) \cup ResizeDevs(e) \cup FillDevs(e) \cup ResetDevs(e)
